@@ -54,6 +54,11 @@ func (m *Model) RunKinds(s *Sink, rule string) {
 	}
 	gotTypes := map[string]string{}
 	gotKinds := map[int64]bool{}
+	type kindCaseAt struct {
+		b   *ssa.BasicBlock
+		par *ssa.Parameter
+	}
+	kindCase := map[int64]kindCaseAt{} // the block a comparison of the value's kind with this constant leads to
 	nilCase := false
 	// the conversion and the helpers of its package it hands the value on to unchanged (scalars / composites / pointers
 	// split into functions of their own): each is read with its own parameter in the role of the value
@@ -112,6 +117,7 @@ func (m *Model) RunKinds(s *Sink, rule string) {
 				}
 				if v, k, ok := reflectKindOfValue(c.X, c.Y); ok && v == ssa.Value(par) && c.Op == token.EQL {
 					gotKinds[k] = true
+					kindCase[k] = kindCaseAt{b.Succs[0], par}
 				}
 			}
 		}
@@ -124,6 +130,16 @@ func (m *Model) RunKinds(s *Sink, rule string) {
 	for _, k := range ks {
 		key := fmt.Sprintf("%s|Go type %s", fk, k)
 		got, ok := gotTypes[k]
+		if !ok {
+			// no case of a type switch: the dispatch on the value's kind has a case for the kind of this type, and
+			// that case builds the object from the reflect accessor of the kind (named and plain types alike)
+			if bt, isB := types.Universe.Lookup(k).Type().(*types.Basic); isB {
+				kindOf := map[types.BasicKind]int64{types.Bool: 1, types.Int: 2, types.Int8: 3, types.Int16: 4, types.Int32: 5, types.Int64: 6, types.Uint: 7, types.Uint8: 8, types.Uint16: 9, types.Uint32: 10, types.Uint64: 11, types.Float32: 13, types.Float64: 14, types.String: 24}
+				if kc, have := kindCase[kindOf[bt.Kind()]]; have {
+					got, ok = caseResult(kc.b, nil, ssa.Value(kc.par), types.Type(bt)), true
+				}
+			}
+		}
 		switch {
 		case !ok:
 			s.Violation(rule, key, m.Pos(fn.Pos()), "NativeToObject has no case for Go type %s: such a value in the data is reported as unsupported (or takes the reflection path) instead of being visible as a number/string/boolean", k)
@@ -480,10 +496,33 @@ func (m *Model) RunKinds(s *Sink, rule string) {
 	ns := m.PkgFunc("object", "nativeStructToObject")
 	if ns != nil {
 		okExp := false
+		// the property store: a map update, or a call of a helper of the package that makes one (putNative(key, val)) and
+		// is not itself a converter
+		objT := m.namedType("object", "Object")
+		isPropStore := func(in ssa.Instruction) bool {
+			if _, ok := in.(*ssa.MapUpdate); ok {
+				return true
+			}
+			c, ok := in.(*ssa.Call)
+			if !ok || c.Call.StaticCallee() == nil || c.Call.StaticCallee().Blocks == nil || !inPkg(c.Call.StaticCallee(), "object") || c.Call.StaticCallee() == ns {
+				return false
+			}
+			h := c.Call.StaticCallee()
+			if res := h.Signature.Results(); res.Len() == 1 && objT != nil && types.Identical(res.At(0).Type(), objT) {
+				return false
+			}
+			for _, hb := range h.Blocks {
+				for _, hin := range hb.Instrs {
+					if _, isMu := hin.(*ssa.MapUpdate); isMu {
+						return true
+					}
+				}
+			}
+			return false
+		}
 		for _, b := range ns.Blocks {
 			for _, in := range b.Instrs {
-				if mu, ok := in.(*ssa.MapUpdate); ok {
-					_ = mu
+				if isPropStore(in) {
 					for _, f := range expandFacts(factsAt(b)) {
 						if c, ok := f.Cond.(*ssa.Call); ok && f.Holds && c.Call.StaticCallee() != nil && fnFullName(c.Call.StaticCallee()) == "(reflect.StructField).IsExported" {
 							okExp = true
@@ -498,7 +537,7 @@ func (m *Model) RunKinds(s *Sink, rule string) {
 			var stores []*ssa.BasicBlock
 			for b := range li.body {
 				for _, in := range b.Instrs {
-					if _, ok := in.(*ssa.MapUpdate); ok {
+					if isPropStore(in) {
 						stores = append(stores, b)
 					}
 				}
@@ -634,7 +673,7 @@ func caseResult(b *ssa.BasicBlock, val ssa.Value, extra ...any) string {
 		return "? " + res.Type().String()
 	}
 	t := typeStr(al.Type())
-	if val == nil {
+	if val == nil && (par == nil || asserted == nil) {
 		return t
 	}
 	for _, ref := range *al.Referrers() {
@@ -648,7 +687,7 @@ func caseResult(b *ssa.BasicBlock, val ssa.Value, extra ...any) string {
 				if cv, ok := v.(*ssa.Convert); ok {
 					v = cv.X
 				}
-				if v == val || viaReflect(v) {
+				if (val != nil && v == val) || viaReflect(v) {
 					return t + " payload"
 				}
 			}
@@ -804,6 +843,62 @@ func (m *Model) RunSupportedKinds(s *Sink, rule string) {
 					}
 					nCmp++
 					have[k.Int64()] = true
+				}
+			}
+		}
+	}
+	// ... or a table of converters keyed by kind that the conversion looks the value's kind up in: the keys the
+	// package initialiser puts there (the table must not be written anywhere else)
+	for _, f := range m.reachableFns([]*ssa.Function{nto}) {
+		if shortPkg(fnPkgPath(f)) != "object" {
+			continue
+		}
+		for _, b := range f.Blocks {
+			for _, in := range b.Instrs {
+				lk, ok := in.(*ssa.Lookup)
+				if !ok {
+					continue
+				}
+				mt, isM := lk.X.Type().Underlying().(*types.Map)
+				if !isM {
+					continue
+				}
+				if nt, isN := mt.Key().(*types.Named); !isN || nt.Obj().Pkg() == nil || nt.Obj().Pkg().Path() != "reflect" || nt.Obj().Name() != "Kind" {
+					continue
+				}
+				ld, isLd := lk.X.(*ssa.UnOp)
+				if !isLd {
+					continue
+				}
+				g, isG := ld.X.(*ssa.Global)
+				if !isG || g.Pkg == nil || m.globalMapWritten(shortPkg(g.Pkg.Pkg.Path()), g.Name()) != "" {
+					continue
+				}
+				if c, isC := lk.Index.(*ssa.Call); !isC || !(c.Call.IsInvoke() && c.Call.Method.Name() == "Kind" || c.Call.StaticCallee() != nil && strings.HasSuffix(fnFullName(c.Call.StaticCallee()), ".Kind")) {
+					continue
+				}
+				// the keys stored by the initialiser
+				if initFn := g.Pkg.Func("init"); initFn != nil {
+					for _, ib := range initFn.Blocks {
+						for _, iin := range ib.Instrs {
+							st, isSt := iin.(*ssa.Store)
+							if !isSt || st.Addr != ssa.Value(g) {
+								continue
+							}
+							mk, isMk := st.Val.(*ssa.MakeMap)
+							if !isMk {
+								continue
+							}
+							for _, r := range *mk.Referrers() {
+								if mu, isMu := r.(*ssa.MapUpdate); isMu {
+									if k, isK := mu.Key.(*ssa.Const); isK && k.Value != nil {
+										have[k.Int64()] = true
+										nCmp++
+									}
+								}
+							}
+						}
+					}
 				}
 			}
 		}
